@@ -579,6 +579,63 @@ func parseSubBody(body string) map[string]string {
 	return out
 }
 
+// normRetry: an explicit zero back-off bound and an absent one mean the same
+func normRetry(k, v string) string {
+	if k != "retry" {
+		return v
+	}
+	parts := strings.Split(v, "#")
+	for i := range parts {
+		if parts[i] == "0" {
+			parts[i] = "-"
+		}
+	}
+	if len(parts) == 2 && parts[0] == "-" && parts[1] == "-" {
+		return "-"
+	}
+	return strings.Join(parts, "#")
+}
+
+// expOf: the configuration a subscription request asks for, normalised as GetSubscription reports it
+// (computed independently of the implementation and of the model)
+func expOf(sub *SubReq) map[string]string {
+	exp := map[string]string{"topic": Enc(sub.Topic), "labels": MapStr(sub.Labels), "ordering": boolStr(sub.Ordering)}
+	ret, ttl := i64(sub.Retention), i64(sub.Expiration)
+	if ret == 0 {
+		ret = 7 * 24 * int64(time.Hour)
+	}
+	if ttl == 0 {
+		ttl = 30 * 24 * int64(time.Hour)
+	}
+	exp["retention"], exp["ttl"] = fmt.Sprint(ret), fmt.Sprint(ttl)
+	exp["push"], exp["filter"], exp["dl"], exp["retry"] = "-", "-", "-", "-"
+	if sub.Push != nil && sub.Push.Endpoint != "" {
+		exp["push"] = Enc(sub.Push.Endpoint)
+	}
+	if sub.Filter != "" {
+		exp["filter"] = Enc(sub.Filter)
+	}
+	if sub.DLTopic != nil {
+		n := sub.DLMax
+		if n == 0 {
+			n = 5
+		}
+		exp["dl"] = Enc(*sub.DLTopic) + "#" + fmt.Sprint(n)
+	}
+	mn, mx := i64(sub.RetryMin), i64(sub.RetryMax)
+	if sub.HasRetry && (mn > 0 || mx > 0) {
+		a, b := "-", "-"
+		if mn > 0 {
+			a = fmt.Sprint(mn)
+		}
+		if mx > 0 {
+			b = fmt.Sprint(mx)
+		}
+		exp["retry"] = a + "#" + b
+	}
+	return exp
+}
+
 func TestC17(t *testing.T) {
 	st := NewStats()
 	defer st.Write()
@@ -673,41 +730,7 @@ func TestC17(t *testing.T) {
 				violate("create-rejected", fmt.Sprintf("CreateSubscription with an acceptable configuration was answered %s: %+v", res.Status, *rq.Sub), reqs[:i+1])
 				return false
 			}
-			// normalised expectation, computed independently
-			exp := map[string]string{"topic": Enc(rq.Sub.Topic), "labels": MapStr(rq.Sub.Labels), "ordering": boolStr(rq.Sub.Ordering)}
-			ret, ttl := i64(rq.Sub.Retention), i64(rq.Sub.Expiration)
-			if ret == 0 {
-				ret = 7 * 24 * int64(time.Hour)
-			}
-			if ttl == 0 {
-				ttl = 30 * 24 * int64(time.Hour)
-			}
-			exp["retention"], exp["ttl"] = fmt.Sprint(ret), fmt.Sprint(ttl)
-			exp["push"], exp["filter"], exp["dl"], exp["retry"] = "-", "-", "-", "-"
-			if rq.Sub.Push != nil && rq.Sub.Push.Endpoint != "" {
-				exp["push"] = Enc(rq.Sub.Push.Endpoint)
-			}
-			if rq.Sub.Filter != "" {
-				exp["filter"] = Enc(rq.Sub.Filter)
-			}
-			if rq.Sub.DLTopic != nil {
-				n := rq.Sub.DLMax
-				if n == 0 {
-					n = 5
-				}
-				exp["dl"] = Enc(*rq.Sub.DLTopic) + "#" + fmt.Sprint(n)
-			}
-			mn, mx := i64(rq.Sub.RetryMin), i64(rq.Sub.RetryMax)
-			if rq.Sub.HasRetry && (mn > 0 || mx > 0) {
-				a, b := "-", "-"
-				if mn > 0 {
-					a = fmt.Sprint(mn)
-				}
-				if mx > 0 {
-					b = fmt.Sprint(mx)
-				}
-				exp["retry"] = a + "#" + b
-			}
+			exp := expOf(rq.Sub)
 			got := parseSubBody(res.Body)
 			for k, v := range exp {
 				if got[k] != v {
@@ -737,7 +760,21 @@ func TestC17(t *testing.T) {
 						return false
 					}
 				}
+				// a field named in the mask takes the value of the request (durations: when the request gives one)
+				want := expOf(pendingUpd.Sub)
 				for k := range inMask {
+					if k == "ackdl" {
+						exp[k] = got[k]
+						continue
+					}
+					if (k == "ttl" && i64(pendingUpd.Sub.Expiration) == 0) || (k == "retention" && i64(pendingUpd.Sub.Retention) == 0) {
+						exp[k] = got[k]
+						continue
+					}
+					if normRetry(k, got[k]) != normRetry(k, want[k]) {
+						violate("update-not-applied", fmt.Sprintf("UpdateSubscription with mask %v and %s=%s in the request: Get afterwards returns %s=%s", pendingUpd.Paths, k, want[k], k, got[k]), reqs[:i+1])
+						return false
+					}
 					exp[k] = got[k]
 				}
 				st.Count("update_locality_checks", 1)
@@ -759,7 +796,7 @@ func TestC17(t *testing.T) {
 				violate("rejected-update-changed", "an UpdateSubscription answered "+res.Status+" changed the tables", reqs[:i+1])
 				return false
 			} else {
-				pendingUpd = &Rpc{Paths: nil}
+				pendingUpd = &Rpc{Paths: nil, Sub: rq.Sub}
 			}
 			js, _ := json.Marshal(rq.Paths)
 			st.Distinct(string(js))
